@@ -240,20 +240,20 @@ class DocstringParser(AbstractDocstringParser):
         name: str,
         type_: Literal["attr", "param"],
     ) -> list[DocstringAttribute | DocstringParameter]:
-        all_docstrings = None
-        for docstring_section in function_doc.parsed:
-            section_kind = docstring_section.kind
-            if (type_ == "attr" and section_kind == DocstringSectionKind.attributes) or (
-                type_ == "param" and section_kind == DocstringSectionKind.parameters
-            ):
-                all_docstrings = docstring_section
-                break
+        if type_ == "attr":
+            section_kinds = {DocstringSectionKind.attributes}
+        else:
+            # Parameters can also be documented in an "Other Parameters" or "Keyword Args" section
+            section_kinds = {DocstringSectionKind.parameters, DocstringSectionKind.other_parameters}
 
-        if all_docstrings:
-            name = name.lstrip("*")
-            return [it for it in all_docstrings.value if it.name.lstrip("*") == name]
-
-        return []
+        name = name.lstrip("*")
+        return [
+            it
+            for docstring_section in function_doc.parsed
+            if docstring_section.kind in section_kinds
+            for it in docstring_section.value
+            if it.name.lstrip("*") == name
+        ]
 
     def _griffe_annotation_to_api_type(
         self,
